@@ -60,6 +60,11 @@ def child_main(req, wfd):
             raise OSError(errno.EIO, "injected I/O error", paths[0] if paths else None)
 
     from pathlib import Path
+    if req.get("fsize_limit"):
+        # a full disk / quota: every write beyond the limit fails with EFBIG - in this process and in every worker it starts
+        import resource
+        signal.signal(signal.SIGXFSZ, signal.SIG_IGN)
+        resource.setrlimit(resource.RLIMIT_FSIZE, (int(req["fsize_limit"]), int(req["fsize_limit"])))
     sys.addaudithook(hook)
 
     def one_call(r):
